@@ -26,7 +26,7 @@ def nz(rng, lo, hi, digits=3):
 ELEMENTARY_FAMILIES = {
     'p': ['general', 'axis+', 'axis-', '3pt-Dpos', '3pt-Dneg', '3pt-D0-C',
           '3pt-D0-B', '3pt-D0-A', '3pt-generic', '3pt-axis-neg',
-          '3pt-axis-pos'],
+          '3pt-axis-pos', '3pt-close'],
     'px': ['any'], 'py': ['any'], 'pz': ['any'],
     'so': ['any'], 's': ['any'], 'sx': ['any'], 'sy': ['any'], 'sz': ['any'],
     'c/x': ['any'], 'c/y': ['any'], 'c/z': ['any'],
@@ -58,8 +58,9 @@ def random_rotation(rng):
         [2*(b*d - a*c), 2*(c*d + a*b), a*a - b*b - c*c + d*d]])
 
 
-def three_points(rng, normal, dval):
-    '''Three non-collinear points of the plane n.p = d, in random order.'''
+def three_points(rng, normal, dval, close=False):
+    '''Three non-collinear points of the plane n.p = d, in random order; with
+    `close` the points are a few millimetres from each other.'''
     nrm = np.asarray(normal, dtype=float)
     nrm = nrm / np.linalg.norm(nrm)
     helper = np.array([1., 0., 0.]) if abs(nrm[0]) < 0.9 else np.array([0., 1., 0.])
@@ -67,9 +68,11 @@ def three_points(rng, normal, dval):
     e1 /= np.linalg.norm(e1)
     e2 = np.cross(nrm, e1)
     base = nrm * dval
+    if close:
+        base = base + rng.uniform(-2, 2) * e1 + rng.uniform(-2, 2) * e2
     pts = []
     for ang in (0.3, 2.2, 4.4):
-        rad = rng.uniform(2.0, 5.0)
+        rad = rng.uniform(2.0, 5.0) if not close else rng.uniform(3e-4, 1.5e-3)
         ang += rng.uniform(-0.4, 0.4)
         pts.append(base + rad * (math.cos(ang) * e1 + math.sin(ang) * e2))
     if rng.random() < 0.5:
@@ -119,6 +122,9 @@ def elementary(rng, kind, family):
         if family == '3pt-generic':
             nrm = [nz(rng, 0.2, 1), nz(rng, 0.2, 1), nz(rng, 0.2, 1)]
             return three_points(rng, nrm, nz(rng, 0.5, 4))
+        if family == '3pt-close':
+            nrm = [nz(rng, 0.2, 1), nz(rng, 0.2, 1), nz(rng, 0.2, 1)]
+            return three_points(rng, nrm, nz(rng, 0.5, 4), close=True)
         if family == '3pt-Dpos':
             nrm = [nz(rng, 0.2, 1), nz(rng, 0.2, 1), nz(rng, 0.2, 1)]
             return three_points(rng, nrm, rnd(rng, 0.5, 4))
